@@ -5,6 +5,7 @@ import (
 	"go/ast"
 	"go/token"
 	"go/types"
+	"golang.org/x/tools/go/ssa"
 	"sort"
 	"strings"
 
@@ -37,6 +38,7 @@ func checkC02(c *Ctx) {
 	c02Ownership(c)
 	c02Sets(c)
 	c02Helpers(c)
+	c02RuleNames(c)
 	// (P7) which traversal a step gets (custom domain property or regular predicate) depends on the namespace the IRI
 	// expands to, never on how the prefix is spelled
 	r.Rule("C02.P7", "path steps are classified by their expanded IRI, not by a prefix name", 1)
@@ -1016,3 +1018,94 @@ func c02Helpers(c *Ctx) {
 }
 
 var _ = packages.NeedName
+
+// P8: each path gets its own Rego rule; two path rules with the same name are merged by Rego into one rule whose value is
+// the union of both denotations. The names must come from the fresh-name generator, and its counter must never be reset
+// in reach of the entry points (a reset while another compilation is generating makes that compilation reuse names).
+func c02RuleNames(c *Ctx) {
+	r, p := c.R, c.P
+	r.Rule("C02.P8", "path rules are named by the fresh-name generator, whose counter is never reset in reach of the entry points", 2)
+	gen := p.Pkg("internal/generator")
+	if gen == nil {
+		return
+	}
+	// (a) the rule name of each aggregation comes from the fresh-name generator
+	n := 0
+	proto := &symWalker{}
+	proto.OnText = func(w *symWalker, at ast.Expr, text *Sym) {
+		parts := []*Sym{text}
+		if text.K == symConcat {
+			parts = text.Parts
+		}
+		if len(parts) < 2 {
+			return
+		}
+		c1, ok := parts[1].ConstString()
+		if !ok || !(strings.HasPrefix(c1, "[") || strings.HasPrefix(c1, " = ") || strings.HasPrefix(c1, " =")) {
+			return
+		}
+		last, _ := parts[len(parts)-1].ConstString()
+		if !strings.HasSuffix(strings.TrimSpace(last), "{") {
+			return
+		}
+		head := parts[0]
+		if head.K == symConst {
+			return
+		}
+		fn := w.FuncName()
+		// the rule of a validation is named after its level (C03.L2, C07.H2): not a path rule
+		if head.K == symCall && head.Fn == "strings.ToLower" {
+			return
+		}
+		n++
+		fresh := false
+		head.Walk(func(s *Sym) {
+			if s.K == symCall && strings.Contains(s.Fn, "/parser/profile.") {
+				fresh = true
+			}
+		})
+		r.Check(fresh, "C02.P8", relOf(gen)+"."+fn+"#rule-name", p.Pos(at.Pos()), "the path rule is named by the fresh-name generator", "the head of the path rule is "+head.String()+", not a fresh name: two paths share a rule and each constraint sees the union of both")
+	}
+	for _, f := range gen.Syntax {
+		for _, d := range f.Decls {
+			if fd, ok := d.(*ast.FuncDecl); ok && fd.Body != nil {
+				p.SymWalk(gen, fd, proto, nil)
+			}
+		}
+	}
+	if n == 0 {
+		r.Unknown("C02.P8", "rule-heads", "", "no path rule head template was recognised in the generator")
+	}
+	// (b) the counter is monotone in reach of the library's entry points
+	entries := libraryEntries(p)
+	var funcs []*ssa.Function
+	for f := range p.Reach(entries...) {
+		funcs = append(funcs, f)
+	}
+	sort.Slice(funcs, func(i, j int) bool { return FuncKey(funcs[i]) < FuncKey(funcs[j]) })
+	ms := newMutationSummary(p)
+	counters := 0
+	for _, g := range moduleGlobals(p) {
+		atom, reset := 0, []string{}
+		for _, a := range accessesOf(p, ms, g, funcs) {
+			if a.Kind == "atomic" {
+				atom++
+				if strings.Contains(a.Detail, ".Store") || strings.Contains(a.Detail, ".Swap") || strings.Contains(a.Detail, ".CompareAndSwap") {
+					reset = append(reset, FuncKey(a.Fn)+" at "+p.Pos(a.Instr.Pos()))
+				}
+			}
+			if a.Kind == "write" && strings.Contains(strings.ToLower(g.Name()), "counter") {
+				reset = append(reset, FuncKey(a.Fn)+" at "+p.Pos(a.Instr.Pos()))
+			}
+		}
+		if atom == 0 {
+			continue
+		}
+		counters++
+		sort.Strings(reset)
+		r.Check(len(reset) == 0, "C02.P8", globalKey(g)+"#monotone", p.Pos(g.Pos()), "the fresh-name counter is only incremented in reach of the entry points", "the fresh-name counter is reset in reach of the entry points ("+strings.Join(reset, "; ")+"): a compilation that is generating while another one starts reuses names, two of its path rules get the same name and Rego merges them")
+	}
+	if counters == 0 {
+		r.Unknown("C02.P8", "counter", "", "no atomically accessed fresh-name counter found")
+	}
+}
